@@ -292,6 +292,8 @@ class ReadableStream(io.RawIOBase):
         :returns: 1 - 7 bytes of data or no bytes if EOF.
         :rtype: bytes
         """
+        if size is None or size < 0:
+            return self.readall()
         if self._unread:
             # Data left over from a readinto() with a small buffer comes first
             data, self._unread = self._unread, b""
@@ -301,8 +303,6 @@ class ReadableStream(io.RawIOBase):
         if self.exp_data is not None:
             self._done = True
             return self.exp_data
-        if size is None or size < 0:
-            return self.readall()
 
         command = REQUEST_SEGMENT_UPLOAD
         command |= self._toggle
@@ -538,14 +538,14 @@ class BlockUploadStream(io.RawIOBase):
         :returns: 1 - 7 bytes of data or no bytes if EOF.
         :rtype: bytes
         """
+        if size is None or size < 0:
+            return self.readall()
         if self._unread:
             # Data left over from a readinto() with a small buffer comes first
             data, self._unread = self._unread, b""
             return data
         if self._done:
             return b""
-        if size is None or size < 0:
-            return self.readall()
 
         try:
             response = self.sdo_client.read_response()
